@@ -14,6 +14,7 @@ Q == 1..QN
 T1 == Tuples(QN, 1)
 T2 == Tuples(QN, 2)
 T3 == IF QN >= 3 THEN Tuples(QN, 3) ELSE {}
+T4 == IF QN >= 4 THEN Tuples(QN, 4) ELSE {}
 Others(t) == Q \ RangeOf(t)
 Shapes ==
    {Sh(o, "", {}, t) : o \in {"X", "Y", "Z", "H", "S", "T", "rx", "ry", "rz", "u3", "ry_rx"}, t \in T1}
@@ -24,6 +25,7 @@ Shapes ==
    \cup {Sh("single", m, {}, t) : m \in {"A1", "A2"}, t \in T1}
    \cup {Sh("double", m, {}, t) : m \in {"B1", "B2"}, t \in T2}
    \cup {Sh("triple", m, {}, t) : m \in {"D1", "D2", "D3"}, t \in T3}
+   \cup {Sh("quadruple", m, {}, t) : m \in {"E1", "E2"}, t \in T4}
    \cup UNION {{Sh("csingle", m, c, t) : m \in {"A1", "A2"}, c \in (SUBSET Others(t)) \ {{}}} : t \in T1}
    \cup UNION {{Sh("cdouble", m, c, t) : m \in {"B1", "B2"}, c \in (SUBSET Others(t)) \ {{}}} : t \in T2}
 NPar(op) == IF op \in {"rx", "ry", "rz", "rzz", "crx", "cry", "crz"} THEN 1 ELSE IF op \in {"u3", "cu3"} THEN 3 ELSE IF op = "ry_rx" THEN 2 ELSE 0
